@@ -172,6 +172,14 @@ let mode_of (opts : int) : wdmode =
    whenres TAB #p <n:prefix expr;...> TAB #d <n=v;...> TAB <lyx commands and pseudo commands>
      #p   conditions: expr in prefix form, tokens separated by ',': T | H<d> | E<d>.<v> | N,e | A,e,e | O,e,e
      #d   schema defaults of the leaves
+     #lv <n;...>  the leaves that are top-level nodes of the module (the others are children of container box)
+     implicit t0 ...            lyd_new_implicit_all = for every module of the context lyd_new_implicit_module, which
+                                creates and resolves the module's new top-level nodes and then calls
+                                lyd_new_implicit_tree on EVERY root. Seen from module m1: the nested leaves (if box
+                                exists already: an earlier module's call got there), the top-level leaves, the nested
+                                leaves again (twice). Each phase creates the missing defaults of its level and
+                                resolves the conditional ones among them (queue = the new nodes only, all flagged
+                                was-true); explicit nodes are neither queued nor judged -> I0 <n=v[d];...> | ISTUCK
      #new <n> <v> / #free <n>   the edit the neighbouring lyx command makes (lyd_new_path with UPDATE / lyd_free_tree)
      val t0 ...                 missing defaults are created (flagged was-true, as lyd_new_implicit does), every present
                                 node with a condition is queued, wrun -> V0 <n=v[d];...> | VE | VSTUCK; afterwards
@@ -195,7 +203,7 @@ let parse_cexp (s : string) : cexp =
   go ()
 
 let run_whenres (rest : string list) : string =
-  let prog = ref [] and dflts = ref [] in
+  let prog = ref [] and dflts = ref [] and tops = ref [] and box = ref false in
   let world = ref [] (* (n, v) ints, sorted by n *) and isd = ref [] and wt = ref [] and dead = ref false in
   let out = ref [] in
   let emit s = out := s :: !out in
@@ -209,17 +217,45 @@ let run_whenres (rest : string list) : string =
     else if starts cmd "#d " then
       dflts := List.map (fun e -> match String.split_on_char '=' e with
         | [n; v] -> (int_of_string n, int_of_string v) | _ -> raise (Tree_io "dflt")) (items (after cmd "#d "))
+    else if starts cmd "#lv " then tops := List.map int_of_string (items (after cmd "#lv "))
     else if !dead then ()
     else match String.split_on_char ' ' cmd with
+      | "implicit" :: "t0" :: _ ->
+          let p = List.map (fun (n, c) -> (nat_of_int n, c)) !prog in
+          let show () = String.concat "" (List.map (fun (n, v) ->
+            Printf.sprintf "%d=%d%s;" n v (if List.mem n !isd then "d" else "")) !world) in
+          let phase sel =
+            if not !dead then begin
+              let fresh = List.filter (fun (n, _) -> sel n && not (List.mem_assoc n !world)) !dflts in
+              List.iter (fun (n, v) -> set n v; isd := n :: !isd; wt := n :: !wt) fresh;
+              let q = List.filter_map (fun (n, _) ->
+                if List.mem_assoc n !prog then Some (nat_of_int n, true) else None) fresh in
+              match wrun p (List.map (fun (n, v) -> (nat_of_int n, nat_of_int v)) !world) q with
+              | Done w ->
+                  world := List.map (fun (n, v) -> (int_of_nat n, int_of_nat v)) w;
+                  isd := List.filter (fun n -> List.mem_assoc n !world) !isd;
+                  wt := List.filter (fun n -> List.mem_assoc n !world) !wt
+              | _ -> emit "ISTUCK"; dead := true
+            end in
+          if not (acyclicb p) then (emit "VCYCLE"; dead := true) else begin
+            if !box then phase (fun n -> not (List.mem n !tops));
+            phase (fun n -> List.mem n !tops);
+            box := true;
+            phase (fun n -> not (List.mem n !tops));
+            phase (fun n -> not (List.mem n !tops));
+            if not !dead then emit ("I0 " ^ show ())
+          end
       | ["#new"; n; v] ->
           let n = int_of_string n and v = int_of_string v in
           if not (List.mem_assoc n !world) then wt := List.filter (fun m -> m <> n) !wt;
+          if not (List.mem n !tops) then box := true;
           set n v; isd := List.filter (fun m -> m <> n) !isd
       | ["#free"; n] ->
           let n = int_of_string n in
           world := List.filter (fun (m, _) -> m <> n) !world;
           isd := List.filter (fun m -> m <> n) !isd; wt := List.filter (fun m -> m <> n) !wt
       | "val" :: "t0" :: _ ->
+          box := true;
           List.iter (fun (n, v) -> if not (List.mem_assoc n !world) then begin
             set n v; isd := n :: !isd; wt := n :: !wt end) !dflts;
           let q = List.filter_map (fun (n, _) ->
